@@ -8,7 +8,8 @@
     stores `self.system_info.cpu.pointer_width()` (called by print_json before the document is built);
   * `impl serde::Serialize for Limit`: per arm the variant and what is written (`serialize_str("text")` / `serialize_u64(val)`);
     a match guard or any other serializer call is not modelled;
-  * `cpu_microcode_version`: `format!("{num:#x}")`.
+  * `cpu_microcode_version`: `format!("{num:#x}")`;
+  * minidump_common::utils::basename: `match f.rfind([separators]) { None => f, Some(index) => &f[(index + 1)..] }` -> the separators.
 Theorem c15_format_pinned states that the arms are the ones the hand-written model (address_str, json_of_lim) was written for and
 c15_format_semantics that address_str / json_of_lim render exactly what those arms say, so an edit of a width, of the formatted
 expression or of a Limit arm breaks a proof obligation even when no generated state exhibits the difference.
@@ -111,6 +112,21 @@ if not em or squash(em.group(1)) != "Error, Unlimited, Limited(u64),":
     die("enum Limit is no longer { Error, Unlimited, Limited(u64) }")
 
 
+# ---------------------------------------------------------------- basename (minidump-common/src/utils.rs)
+ut = re.sub(r"//[^\n]*", "", open(os.path.join(repo, "minidump-common/src/utils.rs")).read())
+bm = re.search(r"pub fn basename\(f: &str\) -> &str \{\s*match f\.rfind\(\[(.*?)\]\) \{\s*None => f,\s*Some\(index\) => &f\[\(index \+ 1\)\.\.\],\s*\}\s*\}", ut, re.S)
+if not bm:
+    die("minidump_common::utils::basename is no longer `match f.rfind([...]) { None => f, Some(index) => &f[(index + 1)..] }`")
+seps = []
+for tok in [t.strip() for t in bm.group(1).split(",") if t.strip()]:
+    cm = re.match(r"^'(\\\\|[^'\\])'$", tok)
+    if not cm:
+        die("basename: separator %r not recognised" % tok)
+    seps.append(ord("\\") if cm.group(1) == "\\\\" else ord(cm.group(1)))
+if "use minidump_common::utils::basename;" not in nocomment:
+    die("process_state.rs no longer imports minidump_common::utils::basename")
+
+
 def coqstr(s):
     return "[" + ";".join(str(ord(c)) for c in s) + "]"
 
@@ -124,7 +140,9 @@ out = ("(* GENERATED by translate/c15_fmt.py from minidump-processor/src/process
        "Definition ADDRESS_DEFAULT_WIDTH : Z := %d.\n\n" % default_width +
        "(* Serialize for Limit: per arm (variant: 0 Error, 1 Unlimited, 2 Limited(val); Some text = serialize_str(text), None = serialize_u64(val)) *)\n"
        "Definition LIMIT_ARMS : list (Z * option (list Z)) :=\n  [" +
-       "; ".join("(%d, %s)" % (v, "None" if t is None else "Some %s (* %s *)" % (coqstr(t), t)) for v, t in lim_arms) + "].\n")
+       "; ".join("(%d, %s)" % (v, "None" if t is None else "Some %s (* %s *)" % (coqstr(t), t)) for v, t in lim_arms) + "].\n\n"
+       "(* minidump_common::utils::basename: the characters f.rfind([...]) looks for; the result is the text after the last of them *)\n"
+       "Definition BASENAME_SEPARATORS : list Z := [" + "; ".join(str(c) for c in seps) + "].\n")
 path = os.path.join(outdir, "C15Fmt.v")
 os.makedirs(outdir, exist_ok=True)
 try:
